@@ -178,6 +178,16 @@ def enabled(model):
         ids = set(i for n in NETS[net] for i in IDS[n])
         if not (ids & obstacle_ids):
             ops.append(["replace", net])
+    # removal of an object that is NOT contained while its id is in use by a contained object of any kind: whatever the call does (warn,
+    # raise), the scenario and its id pool must stay as they are
+    # (removal is by id: an object of the same kind with the same id IS the contained object, so only cross-kind id collisions count as absent)
+    grp = lambda n: KIND[n] if KIND[n] in ("lanelet", "sign", "light", "intersection") else "obstacle"
+    for n in sorted(KIND):
+        if n in present or n not in IDS:
+            continue
+        users = [m for m in present if set(IDS[m]) & set(IDS[n])]
+        if users and all(grp(m) != grp(n) for m in users):
+            ops.append(["rm_absent", n])
     ops.append(["erase"])
     if ngen < 2:
         ops.append(["generate"])
@@ -233,6 +243,8 @@ def model_step(model, op):
         return "ok", (frozenset(p), ngen, gen)
     if k == "generate":
         return "ok", (present, ngen + 1, gen)
+    if k == "rm_absent":
+        return None, model
     raise KeyError(k)
 
 
@@ -266,6 +278,10 @@ def apply_real(sc, op):
         return sc.remove_intersection(make(op[1]))
     if k == "rm_intersection_list":
         return sc.remove_intersection([make(n) for n in op[1]])
+    if k == "rm_absent":
+        kind = KIND[op[1]]
+        fn = {"sign": sc.remove_traffic_sign, "light": sc.remove_traffic_light, "intersection": sc.remove_intersection, "lanelet": sc.remove_lanelet}.get(kind, sc.remove_obstacle)
+        return fn(make(op[1]))
     if k == "replace":
         return sc.replace_lanelet_network(make(op[1]))
     if k == "erase":
@@ -352,6 +368,10 @@ def check(live, model, model2, op, obs, pre):
                 out.append(("C09|generate|generated-id-in-use", f"returned {g}, contained {got_ids}"))
             if g in model[2]:
                 out.append(("C09|generate|generated-id-repeated", f"returned {g} again (earlier {model[2]})"))
+        return out
+    if k == "rm_absent":
+        if got_ids != model_ids(model2[0]):
+            out.append((f"C09|remove-of-absent:{KIND[op[1]]}|scenario-changed", f"{op} ({obs[0]}): contained {got_ids} model {model_ids(model2[0])}"))
         return out
     if obs[0].startswith("raises:"):
         out.append((f"C09|{opname}|{obs[0]}", f"{op}: {obs[1]}"))
